@@ -76,6 +76,9 @@ type Spec struct {
 	// Freeze: once the faulty job has ended no other job makes progress until
 	// mrp has noticed the failure and exited (so that jobs are still running then)
 	Freeze bool `json:"freeze"`
+	// Hold: jobs (keys) that begin but do not end before the restart: they are still
+	// running when mrp exits and die with it
+	Hold []string `json:"hold"`
 	// Files: stage code writes the files its outputs name (plus an unreferenced
 	// file and a temporary file), consumers check their file arguments, and at
 	// completion the final VDR sweep and post-processing run as in mrp.
@@ -1033,7 +1036,13 @@ func (d *Driver) envActions() []string {
 		if !j.begun {
 			acts = append(acts, "B:"+strconv.Itoa(i))
 		} else if !j.ended {
-			acts = append(acts, "E:"+strconv.Itoa(i))
+			held := false
+			for _, h := range d.spec.Hold {
+				held = held || h == j.key
+			}
+			if !held {
+				acts = append(acts, "E:"+strconv.Itoa(i))
+			}
 		}
 	}
 	return acts
@@ -1270,6 +1279,7 @@ func Run(spec *Spec, workdir string) (res *Result) {
 		d.mu.Unlock()
 		time.Sleep(20 * time.Millisecond) // let asynchronous cleanup goroutines of the old runtime end
 		spec.Faults = nil
+		spec.Hold = nil
 		d.frozen = false
 		if spec.Orphans {
 			// a restarted mrp is another process at another time: let the
